@@ -13,10 +13,11 @@
 
 #define MAXF 48
 
-enum { CL_W32, CL_STRADDLE, CL_EXACT, CL_SHORT, CL_SEG, CL_BITOFF, CL_RDOVER, CL_EMPTYSEG, CL_W32EMPTY, CL_OPAQUE, CL_EXTRACT_BITS, CL_RESEG };
+enum { CL_W32, CL_STRADDLE, CL_EXACT, CL_SHORT, CL_SEG, CL_BITOFF, CL_RDOVER, CL_EMPTYSEG, CL_W32EMPTY, CL_OPAQUE, CL_EXTRACT_BITS, CL_RESEG, CL_LATE_START, CL_SPLICED, CL_LEAD_STRIPPED };
 static const char *const class_names[] = {
     "field_32bit", "field_straddles_cache", "buffer_exactly_full", "buffer_too_small",
-    "read_segmented", "read_bit_offset", "read_past_end", "empty_segment", "w32_on_empty_cache", "read_from_plain_memory", "extract_bits_into_writer", "block_resegmented_before_reading", NULL };
+    "read_segmented", "read_bit_offset", "read_past_end", "empty_segment", "w32_on_empty_cache", "read_from_plain_memory", "extract_bits_into_writer", "block_resegmented_before_reading",
+    "reader_starts_at_a_later_field", "reader_over_a_splice_that_ends_inside_a_segment", "lead_octets_deleted_after_an_access_further_in", NULL };
 
 static void ref_pack(const uint8_t *w, const uint32_t *v, int n, uint8_t *out, size_t outsz)
 {
@@ -163,7 +164,7 @@ static int run(const uint8_t *tp_, size_t len, struct vp_report *rep, unsigned f
     }
 
     /* ---- block bit-stream reader over a segmentation ---- */
-    int nseg = 0, bitoff = 0; bool emptyseg = false; bool rdover = false; bool reseg = false;
+    int nseg = 0, bitoff = 0; bool emptyseg = false; bool rdover = false; bool reseg = false; int skipf = 0; bool spliced = false, stripped = false;
     if (ret == 0) {
         struct fix_mem fm;
         if (fix_mem_init(&fm, 0, 0, 0) != 0) { free(buf); free(expect); return vp_internal(rep, "fix_mem_init"); }
@@ -171,7 +172,7 @@ static int run(const uint8_t *tp_, size_t len, struct vp_report *rep, unsigned f
         int lead = tp_u8(&t) % 3;
         bitoff = tp_u8(&t) % 8;
         size_t streamlen = lead + (total + bitoff + 7) / 8;
-        uint8_t *src = calloc(1, streamlen + 1);
+        uint8_t *src = calloc(1, streamlen + 1), *src_base = src;
         /* lead octets random, then bitoff random bits, then the fields */
         for (int i = 0; i < lead; i++) src[i] = 0x5a + i;
         {
@@ -229,6 +230,11 @@ static int run(const uint8_t *tp_, size_t len, struct vp_report *rep, unsigned f
             uint8_t sh = tp_u8(&t);
             h = vp_hash_mix(h, 0x5e00 | sh);
             int k = 1 + (sh >> 6); bool shrunk = false;
+            /* more of the same, chosen by one more octet: the reader starts at a later field, the block is replaced by a splice whose
+             * window ends inside a segment, the lead octets are deleted for good after an access further in */
+            uint8_t sh2 = (sh & 0x04) ? tp_u8(&t) : 0;
+            if (sh & 0x04) h = vp_hash_mix(h, 0x5f00 | sh2);
+            if ((sh & 0x04) && n > 1) skipf = (sh2 >> 2) % n;
             if (sh & 0x20) {            /* the first k octets are taken away now and given back after the other steps */
                 size_t lin = 0;
                 if (ubase_check(ubuf_block_size_linear(ubuf, 0, &lin)) && lin > (size_t)k && streamlen > (size_t)k && ubase_check(ubuf_block_resize(ubuf, k, -1))) {
@@ -250,15 +256,22 @@ static int run(const uint8_t *tp_, size_t len, struct vp_report *rep, unsigned f
                 /* the tail is cut off (truncate releases the segments behind the cut) and a fresh copy of it appended again */
                 size_t off = 1 + tp_u8(&t) % (cur - 1);
                 size_t base = shrunk ? (size_t)k : 0;
-                struct ubuf *piece = ubuf_block_alloc(fm.block_mgr, (int)(cur - off));
+                size_t extra = ((sh2 & 1) && !shrunk) ? 1 + (size_t)(sh2 >> 5) : 0;    /* octets behind the window of the splice */
+                struct ubuf *piece = ubuf_block_alloc(fm.block_mgr, (int)(cur - off + extra));
                 uint8_t *wp; int ws = -1;
-                if (!piece || !ubase_check(ubuf_block_write(piece, 0, &ws, &wp)) || ws != (int)(cur - off)) { if (piece) ubuf_free(piece); ret = vp_internal(rep, "piece for the truncated tail"); }
+                if (!piece || !ubase_check(ubuf_block_write(piece, 0, &ws, &wp)) || ws != (int)(cur - off + extra)) { if (piece) ubuf_free(piece); ret = vp_internal(rep, "piece for the truncated tail"); }
                 else {
                     memcpy(wp, src + base + off, cur - off);
+                    memset(wp + (cur - off), 0xa5, extra);
                     ubuf_block_unmap(piece, 0);
                     if (!ubase_check(ubuf_block_truncate(ubuf, (int)off))) { ubuf_free(piece); ret = vp_internal(rep, "ubuf_block_truncate(%zu) of %zu octets", off, cur); }
                     else if (!ubase_check(ubuf_block_append(ubuf, piece))) { ubuf_free(piece); ret = vp_internal(rep, "ubuf_block_append after truncate"); }
-                    else { if (render) vp_render(rep, "  truncate(%zu)+append of the same octets\n", off); reseg = true; }
+                    else { if (render) vp_render(rep, "  truncate(%zu)+append of the same octets%s\n", off, extra ? " and some more" : ""); reseg = true; }
+                    if (ret == 0 && extra) {
+                        struct ubuf *win = ubuf_block_splice(ubuf, 0, (int)cur);
+                        if (win == NULL) ret = vp_internal(rep, "ubuf_block_splice(0, %zu) of %zu octets", cur, cur + extra);
+                        else { ubuf_free(ubuf); ubuf = win; spliced = true; if (render) vp_render(rep, "  splice(0,%zu) of %zu octets replaces the block\n", cur, cur + extra); }
+                    }
                 }
             }
             if (ret == 0 && (sh & 0x10) && cur > 0) {
@@ -273,6 +286,19 @@ static int run(const uint8_t *tp_, size_t len, struct vp_report *rep, unsigned f
                 if (!ubase_check(ubuf_block_prepend(ubuf, k))) ret = vp_internal(rep, "ubuf_block_prepend(%d) after resize(%d,-1)", k, k);
                 else { if (render) vp_render(rep, "  prepend(%d)\n", k); reseg = true; }
             }
+            if (ret == 0 && (sh2 & 2) && lead > 0 && !spliced) {
+                size_t lin = 0, S = (size_t)lead + ((size_t)bitoff) / 8; uint8_t tmp;
+                for (int q = 0, bits = bitoff; q < skipf; q++) { bits += w[q]; S = (size_t)lead + (size_t)bits / 8; }
+                if (ubase_check(ubuf_block_size_linear(ubuf, 0, &lin)) && lin > (size_t)lead && streamlen > (size_t)lead + 1) {
+                    size_t acc = (sh2 & 0x80) ? streamlen - 1 : S < streamlen ? S : streamlen - 1;
+                    ubuf_block_extract(ubuf, (int)acc, 1, &tmp);
+                    if (!ubase_check(ubuf_block_resize(ubuf, lead, -1))) ret = vp_internal(rep, "ubuf_block_resize(%d,-1)", lead);
+                    else {
+                        if (render) vp_render(rep, "  access at offset %zu, then resize(%d,-1) for good\n", acc, lead);
+                        src += lead; streamlen -= lead; lead = 0; stripped = true; reseg = true;
+                    }
+                }
+            }
             if (ret == 0) {         /* the harness' own premise: the content is what it was (read through a duplicate: the block's own segment cache stays as the steps above left it) */
                 uint8_t *chk = malloc(streamlen);
                 size_t sz = 0;
@@ -285,10 +311,12 @@ static int run(const uint8_t *tp_, size_t len, struct vp_report *rep, unsigned f
         }
         if (ret == 0 && total > 0) {
             struct ubuf_block_stream s;
-            if (!ubase_check(ubuf_block_stream_init_bits(&s, ubuf, lead * 8 + bitoff)))
-                ret = vp_fail(rep, "C18/stream/init", "ubuf_block_stream_init_bits(%d) failed on a block of %zu octets", lead * 8 + bitoff, streamlen);
+            int startbit = lead * 8 + bitoff;
+            for (int q = 0; q < skipf; q++) startbit += w[q];
+            if (!ubase_check(ubuf_block_stream_init_bits(&s, ubuf, startbit)))
+                ret = vp_fail(rep, "C18/stream/init", "ubuf_block_stream_init_bits(%d) failed on a block of %zu octets", startbit, streamlen);
             else {
-                for (int i = 0; i < n && ret == 0; i++) {
+                for (int i = skipf; i < n && ret == 0; i++) {
                     uint32_t g = stream_read(&s, w[i]);
                     if (s.overflow)
                         ret = vp_fail(rep, "C18/stream/spurious-overflow", "field %d overflow inside the data", i);
@@ -387,7 +415,7 @@ static int run(const uint8_t *tp_, size_t len, struct vp_report *rep, unsigned f
             free(out);
         }
         if (ubuf) ubuf_free(ubuf);
-        free(src);
+        free(src_base);
         const char *leak = fix_mem_clean(&fm);
         if (leak && ret == 0) ret = vp_internal(rep, "fixture: %s", leak);
     }
@@ -404,6 +432,9 @@ static int run(const uint8_t *tp_, size_t len, struct vp_report *rep, unsigned f
     if (rdover || over_extra) rep->classes |= 1u << CL_RDOVER;
     if (emptyseg) rep->classes |= 1u << CL_EMPTYSEG;
     if (reseg) rep->classes |= 1u << CL_RESEG;
+    if (skipf) rep->classes |= 1u << CL_LATE_START;
+    if (spliced) rep->classes |= 1u << CL_SPLICED;
+    if (stripped) rep->classes |= 1u << CL_LEAD_STRIPPED;
     if (w32empty) rep->classes |= 1u << CL_W32EMPTY;
     /* NT: a 32-bit field or a field straddling the cache boundary, and (buffer exactly full or short or segmented read) */
     rep->nontrivial = (w32 || straddle) && (bufsz <= need) && n >= 2;
